@@ -245,7 +245,7 @@ def run_one(params, acc, record=True):
 
 
 def units(tier, seed):
-    n = 420 if tier == "quick" else 24000
+    n = 420 if tier == "quick" else 12000
     us = []
     for i in range(0, n, 10):
         us.append({"seed": seed * 9973 + i, "n": 10, "cls": list(RE.CLS)[(i // 10) % 2],
